@@ -39,5 +39,6 @@ Definition ty_of (k : nat) : ty :=
   | 6 => TSeq (TTuple [TU32; TString]) | 7 => TOption (TSeq TU64) | 8 => E_ty | 9 => TSender
   | 10 => TTuple [TReceiver; TRegion] | 11 => TTuple [TSeq TSender; TSender; TReceiver]
   | 12 => TTuple [TU64; TSeq TSender; TOption TRegion; E_ty; TF64]
+  | 13 => TTuple [TReceiver; TReceiver] | 14 => TTuple [TReceiver; TSender; TOption TReceiver]
   | _ => TUnit
   end%nat.
